@@ -173,6 +173,41 @@ def _handlers(fn):
     return out
 
 
+_RISKY = {"_eval": ["TargetSuccess", "FeasibleSuccess", "CallbackSuccess", "MaxEvalError"],
+          "TrustRegion": ["TargetSuccess", "FeasibleSuccess", "CallbackSuccess", "MaxEvalError", "LinAlgError"],
+          "framework.get_geometry_step": ["LinAlgError"], "framework.get_index_to_remove": ["LinAlgError"],
+          "framework.models.update_interpolation": ["LinAlgError"], "framework.models.reset_models": ["LinAlgError"],
+          "framework.models.fun_alt_grad": ["LinAlgError"]}
+
+
+def _call_sites(fn):
+    """EVERY call, anywhere in `minimize`, of a function that can raise one of the internal exceptions, with the
+    exception classes caught by the `try` statements that enclose the call (a call in an `except`, `else` or `finally`
+    part is not protected by that `try`).  Row: (callee, line, caught classes)"""
+    out = []
+
+    def walk(node, caught):
+        if isinstance(node, ast.Try):
+            mine = caught + [_exc_name(h) for h in node.handlers]
+            for st in node.body:
+                walk(st, mine)
+            for h in node.handlers:
+                for st in h.body:
+                    walk(st, caught)
+            for st in node.orelse + node.finalbody:
+                walk(st, caught)
+            return
+        if isinstance(node, ast.Call):
+            name = ast.unparse(node.func)
+            if name in _RISKY:
+                out.append((name, node.lineno, sorted(set(caught))))
+        for ch in ast.iter_child_nodes(node):
+            walk(ch, caught)
+    for st in fn.body:
+        walk(st, [])
+    return out
+
+
 def _direct_exits(fn):
     """status decisions outside handlers: early returns and `status = ...; break` in the loop"""
     handler_nodes = set()
@@ -372,6 +407,11 @@ def generate():
     H += ["", "/-- status decisions outside handlers: kind (`return` = early exit, `assign` = loop exit), status member -/",
           "def directExits : List (String × String) := ["]
     H.append(",\n".join(f"  ({lean_str(k)}, {lean_str(st)})" for k, st, _ in _direct_exits(minimize)) + "]")
+    H += ["", "/-- every call site, in `minimize`, of a function that can raise an internal exception: callee, exception classes caught around it -/",
+          "def callSites : List (String × List String) := ["]
+    H.append(",\n".join(f"  ({lean_str(c)}, [{', '.join(lean_str(e) for e in ex)}])" for c, _, ex in _call_sites(minimize)) + "]")
+    H += ["", "/-- what each of these functions can raise -/", "def mayRaise : List (String × List String) := ["]
+    H.append(",\n".join(f"  ({lean_str(c)}, [{', '.join(lean_str(e) for e in ex)}])" for c, ex in _RISKY.items()) + "]")
     H += ["", "end Cobyqa.Gen", ""]
     files["Handlers.lean"] = "\n".join(H)
     S = ["/- GENERATED by harness/translate.py from every module of /repo/cobyqa (tests excluded) — do not edit. -/",
